@@ -98,6 +98,8 @@ def run(ck):
         ck.cov.setdefault("valid_documents", 0)
         ck.cov["valid_documents"] += s.get("valid_documents", 0)
         judge(ck, ck.validate("json", "JsonTrace", "JsonTrace.cfg", tp, timeout=3000), mode)
+    import c10jsjson
+    c10jsjson.run(ck, ck.path("cases-grammar.ndjson"), thorough)     # growth: the same documents as JavaScript, through AST.JSON
     ck.cov["exhaustive"] = True
     ck.cov["constants"] = {"grammar MaxTok": 15 if thorough else 11, "all MaxTok": 6 if thorough else 5}
     ck.cov["rule"] = ("grammar: every document skeleton derivable from RFC 8259 with at most MaxTok tokens (TLC), each spelled several times "
